@@ -36,7 +36,7 @@ finding('C12', 'final-markov-preterminal', 'same defect as F-C15b seen from C12:
 fixed('C05', 'c17c8e5', 'password containing U+0130 (the only character whose lower() is longer than itself): e-mail / website / alpha detectors sliced the original string with offsets computed on the lower-cased copy -> empty or mis-aligned segments, wrong length labels, bogus multi-word splits', {'password': '\u0130@a.comx', 'segments': "[('\u0130@a.com','E'),('','O0')]"}, 'F-C05')
 finding('C05', 'keyboard-walk-recursion-depth', 'password made of ~1000 separate keyboard walks: detect_keyboard_walk recurses once per walk and overflows the interpreter stack -> RecursionError aborts parsing (F-C05b); only the thorough tier generates such input', {'password': "'1qaz2wsx3edc4rfv' * 250"}, 'F-C05b')
 
-finding('C13', 'non-reversible-case', 'candidate containing a letter whose case mapping is not one-to-one (title-case U+01C5, capital sharp s U+1E9E, ...): the scorer lower-cases + masks and returns p > 0, the guesser can only emit lower() or upper() of the stored word, never the candidate itself (F-C13)', {'training': ['\u01c5ungla'], 'candidate': '\u01c5ungla', 'score': '> 0', 'guesser': 'emits \u01c6ungla only'}, 'F-C13')
+fixed('C13', 'ed5a5e9', 'candidate containing a letter whose case mapping is not one-to-one (title-case U+01C5, capital sharp s U+1E9E, ...): the scorer lower-cased + masked and returned p > 0 although the guesser can only emit lower()/upper() of the stored word, never the candidate itself', {'training': ['\u01c5ungla'], 'candidate': '\u01c5ungla'}, 'F-C13')
 
 finding('C20', 'context-label-length', 'edit_rules counts a context segment X1 as length 1 although context strings have 2-4 characters: a structure with an X label can survive a length filter and still generate guesses outside the requested bounds (F-C20)', {'structure': 'X1D1', 'options': '--max_length 2', 'guess': 'No.11 (length 5)'}, 'F-C20')
 
